@@ -67,3 +67,7 @@ cfg("MCEvmValue_emit_xframes_ops2.cfg", xreal, dict(MaxFrameOps="= 2", FrameKind
 cfg("MCEvmValue_emit_claim.cfg", real, dict(one1r, TxKinds="TKCall", TxValues="RV0", CallValues="RV0", Regimes="RBG", OpKinds="OKClaim", DestClasses="DElig",
                                             AmtClasses="AZero", GlClasses="GOk", FeeClasses="FOne", AlClasses="ALGood", FrameKinds="FKCallOnly",
                                             CallTargets="TTK1", TxTargets="TTK1", Benefs="BFK1F", MaxDepth="= 2", MaxFrameOps="= 2", MaxTx="= 2"), emit=True)
+
+# ---- value-bearing calls to a precompiled contract (bn256ScalarMul) that succeed / fail by input / fail by gas: top-level and from frames
+cfg("MCEvmValue_emit_precompile.cfg", real, dict(one1r, TxKinds="TKPre", TxValues="RV01", CallValues="RV01", Regimes="RG", OpKinds="OKNone", FrameKinds="FKPre",
+                                                 CallTargets="TTK1", TxTargets="TTK1P", Benefs="BFK1", MaxDepth="= 2", MaxFrameOps="= 2"), emit=True)
